@@ -163,7 +163,7 @@ def run(ctx: Ctx) -> int:
     total = 0
     nobs = 0
     for fam in FAMILIES:
-        r = ctx.tlc("MC_C17", 'SPECIFICATION Spec\nCONSTANT FAMILY = "%s"\n%s' % (fam, INV), dump=True, name="family " + fam)
+        r = ctx.tlc("MC_C17", 'SPECIFICATION Spec\nCONSTANTS FAMILY = "%s" TIER = "%s"\n%s' % (fam, ctx.tier, INV), dump=True, name="family " + fam)
         states = read_dump(r.dump)
         if fam == "ctx":
             hists = [s["hist"] for s in states if s["hist"]]
